@@ -21,6 +21,8 @@ class BucketWorld(object):
     s, ctx, plan = self.s, self.ctx, self.plan
     s.finish = self.finish
     s.trace_file(self.w.util.__file__, 'u')
+    for pat, pp in (plan.get('hot') or []):
+      s.heat(pat, pp)
     ov = plan.get('oversleep') or [0.0]
     cnt = [0]
     self.last_oversleep = 0.0
